@@ -27,7 +27,12 @@ pub struct CodecDesc {
 
 /// Families whose NLRI decoder is transcribed in the Lean model (theorem-backed).
 pub fn modelled_family(afi: u16, safi: u8) -> bool {
-    (afi == 1 || afi == 2) && (safi == 1 || safi == 2)
+    // IPv4/IPv6 unicast+multicast; phase 2: labeled (4), VPN (128), SR policy (73), flowspec (133, 134), RTC (1/132),
+    // EVPN (25/70)
+    ((afi == 1 || afi == 2)
+        && (safi == 1 || safi == 2 || safi == 4 || safi == 128 || safi == 73 || safi == 133 || safi == 134))
+        || (afi == 1 && safi == 132)
+        || (afi == 25 && safi == 70)
 }
 
 impl CodecDesc {
@@ -122,10 +127,243 @@ pub fn nexthop_t(n: &Option<Nexthop>) -> Term {
     }
 }
 
+fn label_bytes(ls: &[rustybgp_packet::mpls::MplsLabel]) -> Vec<u8> {
+    let mut b = Vec::new();
+    for l in ls {
+        let v = l.value();
+        b.extend_from_slice(&[(v >> 16) as u8, (v >> 8) as u8, v as u8]);
+    }
+    b
+}
+
+/// the decoded route distinguisher, field by field (type, administrator, assigned number)
+fn rd_bytes(rd: &rustybgp_packet::rd::RouteDistinguisher) -> Vec<u8> {
+    use rustybgp_packet::rd::RouteDistinguisher as R;
+    let mut b = Vec::new();
+    match rd {
+        R::TwoOctetAs { admin, assigned } => {
+            b.extend_from_slice(&0u16.to_be_bytes());
+            b.extend_from_slice(&admin.to_be_bytes());
+            b.extend_from_slice(&assigned.to_be_bytes());
+        }
+        R::Ipv4 { admin, assigned } => {
+            b.extend_from_slice(&1u16.to_be_bytes());
+            b.extend_from_slice(&admin.octets());
+            b.extend_from_slice(&assigned.to_be_bytes());
+        }
+        R::FourOctetAs { admin, assigned } => {
+            b.extend_from_slice(&2u16.to_be_bytes());
+            b.extend_from_slice(&admin.to_be_bytes());
+            b.extend_from_slice(&assigned.to_be_bytes());
+        }
+    }
+    b
+}
+
+fn ops_bytes(t: u8, ops: &[rustybgp_packet::flowspec::Op]) -> Vec<u8> {
+    let mut b = vec![t];
+    for op in ops {
+        b.push(op.bits);
+        b.extend_from_slice(&op.value.to_be_bytes());
+    }
+    b
+}
+
+fn fs4_bytes(c: &rustybgp_packet::flowspec::FlowspecV4Component) -> Vec<u8> {
+    use rustybgp_packet::flowspec::FlowspecV4Component as C;
+    let pfx = |t: u8, n: &rustybgp_packet::bgp::Ipv4Net| -> Vec<u8> {
+        let mut b = vec![t, n.mask];
+        b.extend_from_slice(&n.addr.octets());
+        b
+    };
+    match c {
+        C::DstPrefix(n) => pfx(1, n),
+        C::SrcPrefix(n) => pfx(2, n),
+        C::Protocol(o) => ops_bytes(3, o),
+        C::Port(o) => ops_bytes(4, o),
+        C::DstPort(o) => ops_bytes(5, o),
+        C::SrcPort(o) => ops_bytes(6, o),
+        C::IcmpType(o) => ops_bytes(7, o),
+        C::IcmpCode(o) => ops_bytes(8, o),
+        C::TcpFlags(o) => ops_bytes(9, o),
+        C::PacketLen(o) => ops_bytes(10, o),
+        C::Dscp(o) => ops_bytes(11, o),
+        C::Fragment(o) => ops_bytes(12, o),
+    }
+}
+
+fn fs6_bytes(c: &rustybgp_packet::flowspec::FlowspecV6Component) -> Vec<u8> {
+    use rustybgp_packet::flowspec::FlowspecV6Component as C;
+    let pfx = |t: u8, n: &rustybgp_packet::bgp::Ipv6Net, off: u8| -> Vec<u8> {
+        let mut b = vec![t, n.mask, off];
+        b.extend_from_slice(&n.addr.octets());
+        b
+    };
+    match c {
+        C::DstPrefix { prefix, offset } => pfx(1, prefix, *offset),
+        C::SrcPrefix { prefix, offset } => pfx(2, prefix, *offset),
+        C::NextHeader(o) => ops_bytes(3, o),
+        C::Port(o) => ops_bytes(4, o),
+        C::DstPort(o) => ops_bytes(5, o),
+        C::SrcPort(o) => ops_bytes(6, o),
+        C::IcmpType(o) => ops_bytes(7, o),
+        C::IcmpCode(o) => ops_bytes(8, o),
+        C::TcpFlags(o) => ops_bytes(9, o),
+        C::PacketLen(o) => ops_bytes(10, o),
+        C::Dscp(o) => ops_bytes(11, o),
+        C::Fragment(o) => ops_bytes(12, o),
+        C::FlowLabel(o) => ops_bytes(13, o),
+    }
+}
+
 pub fn nlri_t(p: &PathNlri) -> Term {
     match &p.nlri {
         Nlri::V4(n) => Term::list(vec![Term::nat(p.path_id), Term::nat(n.mask), Term::bytes(&n.addr.octets())]),
         Nlri::V6(n) => Term::list(vec![Term::nat(p.path_id), Term::nat(n.mask), Term::bytes(&n.addr.octets())]),
+        // phase 2 families: (path id, mask / length bits, canonical bytes), see lean/Rbgp/Wire/Nlri2.lean
+        Nlri::VpnV4(n) => {
+            let mut b = label_bytes(n.labels.labels());
+            b.extend(rd_bytes(&n.rd));
+            b.extend_from_slice(&n.prefix.addr.octets());
+            Term::list(vec![Term::nat(p.path_id), Term::nat(n.prefix.mask), Term::bytes(&b)])
+        }
+        Nlri::VpnV6(n) => {
+            let mut b = label_bytes(n.labels.labels());
+            b.extend(rd_bytes(&n.rd));
+            b.extend_from_slice(&n.prefix.addr.octets());
+            Term::list(vec![Term::nat(p.path_id), Term::nat(n.prefix.mask), Term::bytes(&b)])
+        }
+        Nlri::LabeledV4(n) => {
+            let mut b = label_bytes(n.labels.labels());
+            b.extend_from_slice(&n.prefix.addr.octets());
+            Term::list(vec![Term::nat(p.path_id), Term::nat(n.prefix.mask), Term::bytes(&b)])
+        }
+        Nlri::LabeledV6(n) => {
+            let mut b = label_bytes(n.labels.labels());
+            b.extend_from_slice(&n.prefix.addr.octets());
+            Term::list(vec![Term::nat(p.path_id), Term::nat(n.prefix.mask), Term::bytes(&b)])
+        }
+        Nlri::Rtc(n) => {
+            use rustybgp_packet::rtc::MatchType;
+            let (bits, b): (u32, Vec<u8>) = match &n.match_type {
+                MatchType::Wildcard => (0, vec![]),
+                MatchType::AsWildcard { origin_as } => (32, origin_as.to_be_bytes().to_vec()),
+                MatchType::ExactMatch { origin_as, route_target } => {
+                    let mut b = origin_as.to_be_bytes().to_vec();
+                    b.extend_from_slice(route_target);
+                    (96, b)
+                }
+            };
+            Term::list(vec![Term::nat(p.path_id), Term::nat(bits), Term::bytes(&b)])
+        }
+        Nlri::SrPolicy(n) => {
+            let mut b = n.distinguisher.to_be_bytes().to_vec();
+            b.extend_from_slice(&n.color.to_be_bytes());
+            let bits: u32 = match n.endpoint {
+                std::net::IpAddr::V4(a) => {
+                    b.extend_from_slice(&a.octets());
+                    96
+                }
+                std::net::IpAddr::V6(a) => {
+                    b.extend_from_slice(&a.octets());
+                    192
+                }
+            };
+            Term::list(vec![Term::nat(p.path_id), Term::nat(bits), Term::bytes(&b)])
+        }
+        Nlri::Evpn(n) => {
+            use rustybgp_packet::evpn::EvpnNlri as E;
+            let ip_b = |ip: &std::net::IpAddr| -> Vec<u8> {
+                match ip {
+                    std::net::IpAddr::V4(a) => {
+                        let mut v = vec![32u8];
+                        v.extend_from_slice(&a.octets());
+                        v
+                    }
+                    std::net::IpAddr::V6(a) => {
+                        let mut v = vec![128u8];
+                        v.extend_from_slice(&a.octets());
+                        v
+                    }
+                }
+            };
+            let raw_ip = |ip: &std::net::IpAddr| -> Vec<u8> {
+                match ip {
+                    std::net::IpAddr::V4(a) => a.octets().to_vec(),
+                    std::net::IpAddr::V6(a) => a.octets().to_vec(),
+                }
+            };
+            let l3 = |l: u32| -> [u8; 3] { [(l >> 16) as u8, (l >> 8) as u8, l as u8] };
+            let (t, b): (u32, Vec<u8>) = match n {
+                E::EthernetAutoDiscovery(r) => {
+                    let mut b = rd_bytes(&r.rd);
+                    b.extend_from_slice(&r.esi.0);
+                    b.extend_from_slice(&r.etag.to_be_bytes());
+                    b.extend_from_slice(&l3(r.label));
+                    (1, b)
+                }
+                E::MacIpAdvertisement(r) => {
+                    let mut b = rd_bytes(&r.rd);
+                    b.extend_from_slice(&r.esi.0);
+                    b.extend_from_slice(&r.etag.to_be_bytes());
+                    b.extend_from_slice(&r.mac);
+                    match &r.ip {
+                        None => b.push(0),
+                        Some(ip) => b.extend(ip_b(ip)),
+                    }
+                    b.extend_from_slice(&l3(r.label1));
+                    match r.label2 {
+                        Some(l) => {
+                            b.extend_from_slice(&l3(l));
+                            b.push(1);
+                        }
+                        None => b.push(0),
+                    }
+                    (2, b)
+                }
+                E::InclusiveMulticastEthernetTag(r) => {
+                    let mut b = rd_bytes(&r.rd);
+                    b.extend_from_slice(&r.etag.to_be_bytes());
+                    b.extend(ip_b(&r.originating_router_ip));
+                    (3, b)
+                }
+                E::EthernetSegment(r) => {
+                    let mut b = rd_bytes(&r.rd);
+                    b.extend_from_slice(&r.esi.0);
+                    b.extend(ip_b(&r.originating_router_ip));
+                    (4, b)
+                }
+                E::EthernetIpPrefix(r) => {
+                    let mut b = rd_bytes(&r.rd);
+                    b.extend_from_slice(&r.esi.0);
+                    b.extend_from_slice(&r.etag.to_be_bytes());
+                    b.push(r.prefix_len);
+                    b.extend(raw_ip(&r.ip_prefix));
+                    b.extend(raw_ip(&r.gateway_ip));
+                    b.extend_from_slice(&l3(r.label));
+                    (5, b)
+                }
+            };
+            Term::list(vec![Term::nat(p.path_id), Term::nat(t), Term::bytes(&b)])
+        }
+        Nlri::FlowspecV4(n) => {
+            let b: Vec<u8> = n.components.iter().flat_map(fs4_bytes).collect();
+            Term::list(vec![Term::nat(p.path_id), Term::nat(n.components.len() as u32), Term::bytes(&b)])
+        }
+        Nlri::FlowspecV6(n) => {
+            let b: Vec<u8> = n.components.iter().flat_map(fs6_bytes).collect();
+            Term::list(vec![Term::nat(p.path_id), Term::nat(n.components.len() as u32), Term::bytes(&b)])
+        }
+        Nlri::FlowspecVpnV4(n) => {
+            let mut b = rd_bytes(&n.rd);
+            b.extend(n.components.iter().flat_map(fs4_bytes));
+            Term::list(vec![Term::nat(p.path_id), Term::nat(n.components.len() as u32), Term::bytes(&b)])
+        }
+        Nlri::FlowspecVpnV6(n) => {
+            let mut b = rd_bytes(&n.rd);
+            b.extend(n.components.iter().flat_map(fs6_bytes));
+            Term::list(vec![Term::nat(p.path_id), Term::nat(n.components.len() as u32), Term::bytes(&b)])
+        }
         other => Term::list(vec![Term::nat(p.path_id), Term::atom("other"), Term::bytes(&other.encode_to_bytes())]),
     }
 }
